@@ -3,6 +3,7 @@ package main
 import (
 	"bytes"
 	"fmt"
+	"sort"
 	"strings"
 
 	lz4 "github.com/pierrec/lz4/v4"
@@ -50,6 +51,11 @@ func init() {
 }
 
 func c14Emit(c *Ctx, cfg wcfg, data []byte, parts []int, readFrom bool, srcMode int, g *prng.Rng) ([]byte, bool) {
+	return c14EmitF(c, cfg, data, parts, nil, readFrom, srcMode, g)
+}
+
+// c14EmitF: as c14Emit, with a Flush after every Write whose index is set in flushAfter.
+func c14EmitF(c *Ctx, cfg wcfg, data []byte, parts []int, flushAfter []bool, readFrom bool, srcMode int, g *prng.Rng) ([]byte, bool) {
 	sink := &gen.Sink{Budget: 1000 + 16*(len(parts)+len(data)/65536+4)}
 	var failed error
 	wr := c.Watch("Writer", func() {
@@ -66,12 +72,18 @@ func c14Emit(c *Ctx, cfg wcfg, data []byte, parts []int, readFrom bool, srcMode 
 			}
 		} else {
 			p := 0
-			for _, k := range parts {
+			for j, k := range parts {
 				if _, err := writeRecycled(w, data[p:p+k]); err != nil {
 					failed = err
 					return
 				}
 				p += k
+				if j < len(flushAfter) && flushAfter[j] {
+					if err := w.Flush(); err != nil {
+						failed = err
+						return
+					}
+				}
 			}
 		}
 		failed = w.Close()
@@ -153,6 +165,34 @@ func c14EmitAfterHistory(c *Ctx, cfg wcfg, data []byte, hist int, g *prng.Rng) (
 	return sink.Buf, true
 }
 
+// flushScript cuts [0,n) at the Flush offsets (plus, when extra is set, at random further points)
+// and marks the Writes that end on a Flush offset.
+func flushScript(g *prng.Rng, n int, flushOffs []int, extra bool) (parts []int, flushAfter []bool) {
+	cut := map[int]bool{}
+	isF := map[int]bool{}
+	for _, o := range flushOffs {
+		cut[o], isF[o] = true, true
+	}
+	if extra {
+		for k := 0; k < 5; k++ {
+			cut[1+g.N(n-1)] = true
+		}
+	}
+	cut[n] = true
+	offs := make([]int, 0, len(cut))
+	for o := range cut {
+		offs = append(offs, o)
+	}
+	sort.Ints(offs)
+	prev := 0
+	for _, o := range offs {
+		parts = append(parts, o-prev)
+		flushAfter = append(flushAfter, isF[o])
+		prev = o
+	}
+	return
+}
+
 func c14FrameCase(c *Ctx, i int64) {
 	g := c.Rng(i)
 	k := int(i)
@@ -197,6 +237,19 @@ func c14FrameCase(c *Ctx, i int64) {
 	det := func(what string, conc int) map[string]interface{} {
 		return map[string]interface{}{"config": cfg.String(), "stream_len": len(data), "variant": what, "writer_conc": conc}
 	}
+	// Flush offsets of this case (a partial block pending at most of them) and the sequential reference
+	var flushOffs []int
+	var refFlush []byte
+	if len(data) > 10 {
+		for o := 1 + g.N(bs); o < len(data) && len(flushOffs) < 6; o += 1 + g.N(2*bs) {
+			flushOffs = append(flushOffs, o)
+		}
+		parts, fl := flushScript(g, len(data), flushOffs, false)
+		var okF bool
+		if refFlush, okF = c14EmitF(c, cfg, data, parts, fl, false, 0, g); !okF {
+			flushOffs = nil
+		}
+	}
 	for _, conc := range []int{1, 2, 4, 16} {
 		cfg2 := cfg
 		cfg2.conc = conc
@@ -237,6 +290,41 @@ func c14FrameCase(c *Ctx, i int64) {
 				c.Violation(key, fmt.Sprintf("stream of %d bytes, %s: concurrency %d with %d Write calls (style %d, %s) emitted %d bytes that differ from one Write at concurrency 1 (%d bytes)", len(data), cfg, conc, len(parts), st, pname, len(got), len(refW)), det(fmt.Sprintf("partition-style-%d", st), conc))
 			}
 			c.Cell(fmt.Sprintf("frame/%s/len%s/conc%d/style%d/%s", cfg.cell(), sizeBucketK(len(data)), conc, st, pname[:4]))
+		}
+		// Flush changes the block boundaries, but for the same Flush positions (byte offsets) the frame
+		// must still not depend on the concurrency level, the schedule or the other cuts between Writes
+		if len(flushOffs) > 0 {
+			for v := 0; v < 2; v++ {
+				if conc == 1 && v == 0 {
+					continue
+				}
+				parts, fl := flushScript(g, len(data), flushOffs, v == 1)
+				mode, seed, slow, pname := perturbFor(c, i, conc*1000+v)
+				mon.PoolStart(seed&1 == 0)
+				mon.SetPerturbation(mode, seed, slow)
+				got, ok := c14EmitF(c, cfg2, data, parts, fl, false, 0, g)
+				mon.SetPerturbation(mon.PerturbOff, 0, 0)
+				rep := mon.PoolStop()
+				c.Count("frame_emissions", 1)
+				c.Count("frame_emissions_with_flush", 1)
+				if !ok {
+					continue
+				}
+				for _, m := range rep.WriteAfterFree {
+					c.Violation("write-after-release", m, det("write+flush", conc))
+				}
+				if !bytes.Equal(got, refFlush) {
+					key := "flushed-frame-depends-on-concurrency-or-schedule"
+					if conc == 1 {
+						key = "flushed-frame-depends-on-write-partition"
+					}
+					if bytes.Contains(got, bytes.Repeat([]byte{0xDB}, 64)) {
+						key = "frame-contains-stale-pool-contents"
+					}
+					c.Violation(key, fmt.Sprintf("stream of %d bytes, %s: concurrency %d with %d Write calls and Flush at %d fixed offsets (%s) emitted %d bytes that differ from the sequential Writer's %d bytes for the same Flush offsets", len(data), cfg, conc, len(parts), len(flushOffs), pname, len(got), len(refFlush)), det("write+flush", conc))
+				}
+				c.Cell(fmt.Sprintf("frame/%s/len%s/conc%d/flush/v%d/%s", cfg.cell(), sizeBucketK(len(data)), conc, v, pname[:4]))
+			}
 		}
 		if !cfg.legacy && (conc == 1 || conc == 4) {
 			for hist := 1; hist <= 3; hist++ {
